@@ -20,6 +20,57 @@ CLAIMS = {
               "published-constant relation (0.0581 vs 0.314) checked to 4e-3 as the property allows.")),
 }
 
+CLAIMS.update({
+    "C20": dict(
+        category="proof", design="DESIGN.md §3 C20, App. D",
+        technique="static analysis: inter-procedural may-alias / may-mutate abstract interpretation (FX) over every public function and parameter, plus hidden-state rules",
+        text=("For every public function/method and every parameter the FX analysis (per-branch states, loop fixpoints, view/alias "
+              "tracking through numpy view operations, out= arguments, attribute stores, repo callees via summaries, constructor "
+              "arguments kept on self) shows that no in-place sink can reach the argument object; module/class/function state, "
+              "memoisation and mutated mutable defaults are excluded structurally. The 'stack = per item' clause is not decided here."),
+        note=("Trusted: CPython ast; the explicit numpy view / in-place tables in sa/fx.py; library calls outside those tables do not "
+              "modify their arguments; parameters documented as int/float/str/bool/tuple are immutable scalars. A positive control "
+              "(embedded snippet) must fire on every run.")),
+    "C09": dict(
+        category="other", design="DESIGN.md §3 C09",
+        technique="static analysis: abstract interpretation of the FFT wrappers to shift/transform/shift*scale normal forms; shift-group and scale algebra; star-import replay for exports",
+        text=("Inverse-pair, Parseval-scale and centring clauses are decided on the normal forms of ft/ift/ft2/ift2 (and the real "
+              "variants) for every length N and batch shape: inverse shifts, axes sets, product of scales equal to 1 at "
+              "delta_f = 1/(N delta), canonical ifftshift/fftshift centring; what aotools.<name> binds to is decided by replaying "
+              "the package's imports. Quadrature accuracy of the DFT is not decided. Known findings: the real-input variants."),
+        note="Trusted: numpy.fft normalisation and shift definitions; 2-D wrappers are used on square trailing axes."),
+    "C10": dict(
+        category="proof", design="DESIGN.md §3 C10",
+        technique="static analysis: abstract interpretation to rational/exponential normal forms with a linear-field sub-domain; power gain identity decided by rational-function algebra",
+        text=("For all four propagators (every path, repo ft2/ift2 inlined from the current tree) the output is shown to be "
+              "complex-linear in the input field, every array multiplier to have constant modulus, and gain*d_out^2/d_in^2 to be "
+              "identically 1 as a rational function of wavelength, spacings and distances of either sign."),
+        note="Trusted: Parseval for numpy's unnormalised DFT on an N x N grid; all scalar parameters real; z != 0."),
+    "C11": dict(
+        category="other", design="DESIGN.md §3 C11",
+        technique="static analysis: normal forms of the propagators compared with analyser-side oracle definitions evaluated by the same abstract interpreter; one-parameter-group structure from the transfer function's normal form",
+        text=("Decides: unit-magnification angular spectrum = F^-1 exp(z L) F with L input-independent and imaginary, with exactly "
+              "inverse ft2/ift2 (group law, -z undoes +z, z = 0 returns the input); every propagator's normal form equals the textbook "
+              "discretisation of the Fresnel integral (kernel sign, 1/(i lambda z), grids), and the two-step propagator equals two "
+              "chained one-step propagations. Not decided: Gaussian-beam/Airy references, magnification round trip up to a phase."),
+        note="Trusted: oracle text in sa/props/c11.py (Schmidt 2010); numpy ifft2 o fft2 = id; square grids."),
+    "C07": dict(
+        category="other", design="DESIGN.md §3 C07",
+        technique="static analysis: abstract interpretation of the screen generators (loops summarised, not unrolled) to a normal form in draws/grids/parameters, compared with the spectral law of the property; degree queries",
+        text=("Both FFT screen generators are reduced to normal forms and shown equal to the law in the property (PSD constants and "
+              "exponents, frequency grid k/(N delta), zero-frequency bin, (n1 + i n2) sqrt(PSD) del_f coefficients, plain inverse "
+              "DFT sum, real part; three sub-harmonic 3x3 grids, mean removal); linear in each draw and r0^(-5/6). Statistical "
+              "convergence clauses are not decided."),
+        note="Trusted: oracle text in sa/props/c07.py; even N (hypothesis of the property); numpy ifft2 normalisation."),
+    "C08": dict(
+        category="other", design="DESIGN.md §3 C08",
+        technique="static analysis: power-law/Bessel normal forms of the closed-form statistics; constant, exponent and Bessel-parameter identities",
+        text=("D = 2(C(0)-C(r)) term by term, D(0) = 0 exactly, saturation 2*0.0863, Kolmogorov limit and constants, PSD constant and "
+              "exponents in both screen generators, r0^(-5/3) scaling, and exact agreement of the slope-covariance and KL copies are "
+              "decided as identities between normal forms for all r, r0, L0. Monotonicity / PSD-ness / the Hankel integral are not."),
+        note="Trusted: small-argument expansion of K_v; published constants compared with per-identity tolerances (1e-3, 2.5e-2)."),
+})
+
 NOT_APPLICABLE = {
     "C13": ("every clause is about the output of eigh / eigenvalue sorting / bilinear resampling error computed at "
             "run time; no code-shape fact is a necessary condition that static analysis can decide (DESIGN §5)"),
